@@ -433,3 +433,15 @@ func goroutineDump() string {
 	}
 	return strings.Join(keep, " || ")
 }
+
+// killNow: Kill, as a scenario's way of cleaning up or of ending a program. In the normal case it
+// has returned when killNow returns; if a seeded change makes Kill itself hang, the scenario goes
+// on after two seconds (its own watchdogs report what there is to report) instead of hanging with it.
+func killNow(p *tea.Program) {
+	done := make(chan struct{})
+	go func() { p.Kill(); close(done) }()
+	select {
+	case <-done:
+	case <-time.After(2 * time.Second):
+	}
+}
